@@ -12,6 +12,10 @@ package main
 
 import (
 	"bytes"
+	"crypto/sha1"
+	"crypto/sha256"
+	"crypto/sha512"
+	"encoding/base64"
 	"fmt"
 	"strings"
 )
@@ -291,6 +295,54 @@ func jarExtraSemantics(env *Env, v Variant, a *Artifact, j *jarInfo, sib []byte,
 			Why: "the sibling's .SF describes a different manifest"})
 		out = append(out, SemMut{Class: "graft-sibling-signature", Site: "manifest+sf+block", Data: replace(map[string][]byte{j.mf.Name: sj.mfBytes, j.sf.Name: sj.sfBytes, j.block.Name: sj.blockDER}), Assert: true,
 			Why: "the sibling's manifest lists other files / digests"})
+	}
+	// a member added together with a matching manifest section, the .SF and the
+	// block left alone: every per-section digest the .SF names still matches, only
+	// the digest of the whole manifest does not
+	{
+		evil := []byte("\xca\xfe\xba\xbe added after signing\n")
+		alg := ""
+		for _, sec := range j.mfSecs {
+			for k := range sec.Attrs {
+				if strings.HasSuffix(k, "-Digest") {
+					alg = strings.TrimSuffix(k, "-Digest")
+				}
+			}
+		}
+		var sum []byte
+		switch strings.ToUpper(alg) {
+		case "SHA-256":
+			d := sha256.Sum256(evil)
+			sum = d[:]
+		case "SHA-384":
+			d := sha512.Sum384(evil)
+			sum = d[:]
+		case "SHA-512":
+			d := sha512.Sum512(evil)
+			sum = d[:]
+		case "SHA-224":
+			d := sha256.Sum224(evil)
+			sum = d[:]
+		case "SHA1", "SHA-1":
+			d := sha1.Sum(evil)
+			sum = d[:]
+		}
+		if sum != nil {
+			mf := append([]byte{}, j.mfBytes...)
+			if !bytes.HasSuffix(mf, []byte("\r\n\r\n")) && !bytes.HasSuffix(mf, []byte("\n\n")) {
+				mf = append(mf, "\r\n"...)
+			}
+			mf = append(mf, fmt.Sprintf("Name: Added.class\r\n%s-Digest: %s\r\n\r\n", alg, base64.StdEncoding.EncodeToString(sum))...)
+			ms := append([]zMember{}, base...)
+			for i, m := range ms {
+				if m.Name == j.mf.Name {
+					ms[i] = zMember{Name: m.Name, Content: mf, Deflate: m.From.Method == 8, CDRank: m.CDRank}
+				}
+			}
+			ms = append(ms, zMember{Name: "Added.class", Content: evil, Deflate: true})
+			out = append(out, SemMut{Class: "insert-member", Site: "with-matching-manifest-section", Data: zipBuild(src, ms, opts), Assert: true,
+				Why: "the manifest the signature file vouches for (" + alg + "-Digest-Manifest) has changed"})
+		}
 	}
 	// detached content smuggled into the block: the sibling's block made to carry
 	// the sibling's .SF as encapsulated content verifies on its own, but the
